@@ -67,7 +67,7 @@ CLAIMS.update({
             "AddressFilter.tla (Matches, WildcardClass) evaluated by TLC judges the hook-reported filter decision and the peer's view for filters {any, exact, set, wildcard lattice} x aliased loopback sources (IPv4 and ::1) x {TCP, TLS, TLS+authz} x {Rust API, C ABI}, and 3 000+ wildcard strings through WildcardIPv4::from_str and rodbus_address_filter_create",
             "§7 C16", TRUST + "loopback aliases stand for remote addresses"),
     "C18": ("e5-ffi", "model_checking",
-            "FfiTrace.tla holds the conversion tables (WriteResult -> exception byte, exception / error -> request_error value, param_error for argument errors), the wire encoding and decoding (ModbusPdu.tla) and the completion protocol; every scenario is executed through the extern \"C\" functions (C-ABI server with programmable write callbacks observed by a raw client; C-ABI client channel against a scripted peer) and the recorded return codes, wire bytes, callback invocations (which, payload, count) and on_destroy counts are validated by TLC",
+            "FfiTrace.tla holds the conversion tables (WriteResult -> exception byte, exception / error -> request_error value, param_error for argument errors), the wire encoding and decoding (ModbusPdu.tla) and the completion protocol; every scenario is executed through the extern \"C\" functions (C-ABI server with programmable write callbacks observed by a raw client; C-ABI client channel against a scripted peer) and the recorded return codes, wire bytes, callback invocations (which, payload, count) and on_destroy counts are validated by TLC; configuration crossing the boundary is observed where it takes effect: queue depth, retry strategy (instants of the connection attempts), decode levels (the log of a C-ABI channel equals the log of a Rust channel at the same-named level), TLS client configuration (admission judged by TlsAdmission.tla), serial settings / PortState / RTU framing of RTU channels and servers (verif-hooks port opener)",
             "§7 C18", TRUST + "rodbus-ffi linked as rlib; language wrappers above the C ABI not exercised; for calls that report an argument error the error value passed to the completion is not prescribed, only that it fires exactly once"),
     "C19": ("e5-ffi", "model_checking",
             "per-type map semantics of the C-ABI database (add / update / delete / get, client reads, exception 02 on absent points) validated by TLC on random transaction / read sequences through rodbus_server_update_database and a raw client; atomicity: design-level all-interleavings model FfiDatabase_MC (lock per transaction holds, lock per operation is refuted as negative control) plus a stress run on the real code (writers setting a 125-register / 2000-coil block to one value, readers requiring uniform blocks; one run per point type, since each type has its own read path)",
